@@ -171,7 +171,7 @@ theorem split_parse_recovers (T : Table) (h : WFtable T) (m : Msg) (hv : Msg.Val
   · unfold recover
     rw [parseMode_unknown]
     unfold sensitivePart writeExt
-    rw [unknown_part hs hp .sens (Or.inr rfl) _ (valid_emits_ext hv)]
+    rw [unknown_part hs hp .sens trivial _ (valid_emits_ext hv)]
     unfold catchAllValue
     apply flatMap_congr'
     intro r hr
@@ -182,7 +182,7 @@ theorem split_parse_recovers (T : Table) (h : WFtable T) (m : Msg) (hv : Msg.Val
       exact emits_eq_of_on r m .sens (by rw [hg]; rfl) (hv r hr).2
   · rw [parseMode_unknown]
     unfold publicPart writeMode
-    rw [unknown_part hs hp .pub (Or.inl rfl) _ (valid_emits hv .pub)]
+    rw [unknown_part hs hp .pub trivial _ (valid_emits hv .pub)]
     apply flatMap_eq_nil_of
     intro r hr
     cases hca : r.catchAll
@@ -213,6 +213,57 @@ theorem split_parse_recovers_row (T : Table) (hw : WFsplit T) (hs : WFshape T) (
   unfold Row.wfWrapper at hwr
   cases hwrap : r.wrapper <;> cases hg : r.writeGuard <;>
     simp_all [emits_eq_of_on, emits_eq_nil_of_off, Guard.on]
+
+/-! ### Histories: a message that has been through a combined-mode cycle before it is split -/
+
+/-- **A combined-mode cycle (`toXml(SceAll)` → `parse(SceAll)` into a fresh object) keeps every known field**: the
+field of every row comes back as what the row writes in the unsplit form — i.e. unchanged, except for the explicit
+fallback text (`pubOnly`), which the unsplit form does not carry and which therefore comes back EMPTY, never filled. -/
+theorem cycle_keeps_fields (T : Table) (h : WFtable T) (m : Msg) (hv : Msg.Valid T m)
+    (r : Row) (hr : r ∈ T.rows) (hca : r.catchAll = false) :
+    cycleAll T m r.name = r.emits m .all
+    ∧ (r.writeGuard ≠ .pubOnly → cycleAll T m r.name = m r.name)
+    ∧ (r.writeGuard = .pubOnly → cycleAll T m r.name = []) := by
+  obtain ⟨hw, hs, hp⟩ := h
+  have hpr := List.all_eq_true.mp hp r hr
+  have h1 : cycleAll T m r.name = r.emits m .all := by
+    unfold cycleAll
+    rw [ofPSt_known hs _ hr hca, cycle_field hs hv hr hpr hca]
+  refine ⟨h1, ?_, ?_⟩
+  · intro hg
+    rw [h1]
+    have hwr := (wfSplit_of_mem (wfSplit_of_wfWrite hw) hr).2
+    unfold Row.wfWrapper at hwr
+    apply emits_eq_of_on r m .all _ (hv r hr).2
+    cases hgd : r.writeGuard <;> simp_all [Guard.on]
+  · intro hg
+    rw [h1]
+    exact emits_eq_nil_of_off r m .all (by rw [hg]; rfl)
+
+/-- **A combined-mode cycle adds nothing to the public part**: whatever the public part of the re-parsed message
+contains was already in the public part of the original — in particular no payload value can move into a public field
+(such as the clear-text fallback `<body/>`) by storing and re-reading a message before it is encrypted. -/
+theorem cycle_adds_nothing_public (T : Table) (h : WFtable T) (m : Msg) (hv : Msg.Valid T m) :
+    ∀ e ∈ publicPart T (cycleAll T m), e ∈ publicPart T m := by
+  intro e he
+  unfold publicPart writeMode at he ⊢
+  obtain ⟨r, hr, her⟩ := List.mem_flatMap.mp he
+  obtain ⟨hmem, hon, _⟩ := emits_sub r (cycleAll T m) .pub her
+  have hca : r.catchAll = false := by
+    cases hca : r.catchAll
+    · rfl
+    · exfalso
+      have hwr := wfWrite_of_mem h.1 hr
+      have hc := cls_catchAll hca
+      unfold Row.wfWrite Row.wfPayload at hwr
+      simp only [hc, bne_self_eq_false, Bool.false_or, Bool.and_eq_true, beq_iff_eq] at hwr
+      rw [hwr.1.1] at hon
+      cases hon
+  rw [(cycle_keeps_fields T h m hv r hr hca).1] at hmem
+  obtain ⟨hm0, _, hl⟩ := emits_sub r m .all hmem
+  refine List.mem_flatMap.mpr ⟨r, hr, ?_⟩
+  unfold Row.emits
+  simp [hon, hl, hm0]
 
 /-- If no wrapper row is active in sensitive mode, `toXml(SceSensitive)` writes exactly what
 `serializeExtensions(SceSensitive)` writes, so the `toXml`/`parse` pair and the real split coincide. -/
@@ -298,6 +349,13 @@ theorem today_split_parse_recovers (m : Msg) (hv : Msg.Valid table m) :
     ∧ (parseMode table (publicPart table m) .pub true Msg.empty).unknown = [] :=
   split_parse_recovers table table_wf m hv
 
+/-- **Histories — today's code, all valid messages**: storing a message in combined mode and reading it back keeps
+every known field (the explicit fallback text comes back empty) and adds nothing to its public part. -/
+theorem today_cycle_adds_nothing_public (m : Msg) (hv : Msg.Valid table m) :
+    (∀ r ∈ table.rows, r.catchAll = false → cycleAll table m r.name = r.emits m .all)
+    ∧ ∀ e ∈ publicPart table (cycleAll table m), e ∈ publicPart table m :=
+  ⟨fun r hr hca => (cycle_keeps_fields table table_wf m hv r hr hca).1, cycle_adds_nothing_public table table_wf m hv⟩
+
 /-- `toXml(SceSensitive)` writes exactly the envelope content — today's code, all messages. -/
 theorem today_toXml_sensitive_is_content (m : Msg) : writeMode table m .sens = writeExt table m .sens :=
   toXml_sensitive_is_content table table_offending_toXml m
@@ -352,6 +410,22 @@ example :
     ∧ (recover table (sampleMsg.set "extensions" (extMsg "extensions"))).unknown = extMsg "extensions"
     ∧ (recover table sampleMsg).msg "body" = sampleMsg "body"
     ∧ (recover table sampleMsg).msg "hints" = sampleMsg "hints" := by decide
+
+/-- the shape of seeded change C17_d1: a real body, an XEP-0380 encryption method, no explicit fallback body -/
+def emeMsg : Msg :=
+  (Msg.empty.set "body" [{ tag := "body", ns := "", val := "secret" }]).set "encryptionMethod"
+    [{ tag := "encryption", ns := "urn:xmpp:eme:0", val := "eme" }]
+
+/-- …after one and after two combined-mode cycles its public part is still the `<encryption/>` element alone and the
+fallback-text field is still empty; a message with an explicit fallback text loses it in the cycle (never gains one). -/
+example :
+    Msg.Valid table emeMsg
+    ∧ (publicPart table (cycleAll table emeMsg)).map (·.val) = ["eme"]
+    ∧ (publicPart table (cycleAll table (cycleAll table emeMsg))).map (·.val) = ["eme"]
+    ∧ cycleAll table emeMsg "e2eeFallbackBody" = [] ∧ cycleAll table emeMsg "body" = emeMsg "body"
+    ∧ (publicPart table sampleMsg).map (·.val) = ["fb", "h1", "h2", "f", "a"]
+    ∧ (publicPart table (cycleAll table sampleMsg)).map (·.val) = ["h1", "h2", "f", "a"]
+    ∧ (publicPart table (resplit table emeMsg)).map (·.val) = ["eme"] := by decide
 
 /-- The predicates can fail, and name the row: the pre-968e727 guard of the JMI recogniser, the pre-7d68095 guard of
 the addresses writer, a payload row moved to the unguarded tail, a hint moved into the ciphertext (spec
